@@ -548,6 +548,93 @@ theorem interval_ticks_aligned (start period : Nat) (iv : Interval)
     exact tick_next (Interval.ticked ⟨false, start, period⟩) now rfl (by simp [Interval.ticked]; omega)
       hp64 hs hmax
 
+/-! ### `tick()` futures that are cancelled
+
+The statement order of `Interval::tick` is regenerated from the source (extractor target
+`IntervalTick`); the theorems below are about `Interval.runTicks`, which interprets it, for every
+sequence of `tick()` calls each of which is either awaited to completion or dropped while pending. -/
+
+/-- **Alignment under cancellation**: every instant delivered by any sequence of completed and
+cancelled `tick()` futures is `start + k * period` and not before `start`. -/
+theorem interval_coroutine_aligned (iv : Interval) (floor : Nat) (calls : List (Nat × TickEv))
+    (hp : 0 < iv.period) (hp64 : iv.period ≤ 2 ^ 64)
+    (hJ : iv.firstTicked = true → iv.start ≤ floor) (hv : iv.ValidCalls floor calls) :
+    ∀ v ∈ (iv.runTicks calls).2, iv.start ≤ v ∧ (v - iv.start) % iv.period = 0 := by
+  induction calls generalizing iv floor with
+  | nil => simp [Interval.runTicks]
+  | cons c rest ih =>
+    obtain ⟨now, ev⟩ := c
+    cases hf : iv.firstTicked with
+    | false =>
+      have hb := tickBegin_first iv now hf
+      simp only [Interval.ValidCalls, hb] at hv
+      simp only [Interval.runTicks, hb]
+      cases ev with
+      | cancel =>
+        exact ih iv now hp hp64 (by simp [hf]) hv.2
+      | complete =>
+        simp only [tickEnd_first] at hv ⊢
+        intro v hvm
+        rw [List.mem_cons] at hvm
+        rcases hvm with rfl | hvm
+        · simp
+        · exact ih { iv with firstTicked := true } (max now iv.start) hp hp64
+            (fun _ => Nat.le_max_right _ _) hv.2 v hvm
+    | true =>
+      have hb := tickBegin_periodic iv now hf
+      have hfl : floor ≤ now := by
+        simp only [Interval.ValidCalls] at hv
+        exact hv.1
+      have hs : iv.start ≤ now := Nat.le_trans (hJ hf) hfl
+      cases hd : iv.tickDeadline now with
+      | panic =>
+        rw [hd] at hb
+        simp [Interval.runTicks, hb]
+      | deadline d =>
+        rw [hd] at hb
+        simp only [] at hb
+        have hal := tick_deadline_aligned iv now d hf hp hp64 hs hd
+        simp only [Interval.ValidCalls, hb] at hv
+        simp only [Interval.runTicks, hb]
+        cases ev with
+        | cancel => exact ih iv now hp hp64 (fun _ => hs) hv.2
+        | complete =>
+          simp only [tickEnd_periodic] at hv ⊢
+          intro v hvm
+          rw [List.mem_cons] at hvm
+          rcases hvm with rfl | hvm
+          · subst hal
+            refine ⟨Nat.le_add_right _ _, ?_⟩
+            rw [Nat.add_sub_cancel_left]
+            exact Nat.mul_mod_left _ _
+          · exact ih iv (max now d) hp hp64
+              (fun _ => Nat.le_trans hs (Nat.le_max_left _ _)) hv.2 v hvm
+
+/-- the tick at `start` is not lost: whatever was cancelled before, the first instant delivered by a
+fresh interval is `start` -/
+theorem interval_coroutine_first_is_start (iv : Interval) (calls : List (Nat × TickEv))
+    (hf : iv.firstTicked = false) :
+    (iv.runTicks calls).2 = [] ∨ (iv.runTicks calls).2.head? = some iv.start := by
+  induction calls with
+  | nil => simp [Interval.runTicks]
+  | cons c rest ih =>
+    obtain ⟨now, ev⟩ := c
+    simp only [Interval.runTicks, tickBegin_first iv now hf]
+    cases ev with
+    | cancel => exact ih
+    | complete => simp [tickEnd_first]
+
+/-- a cancelled `tick()` leaves the interval exactly as it was (so does a cancelled periodic one) -/
+theorem interval_cancel_is_noop (iv : Interval) (now : Nat) (calls : List (Nat × TickEv)) :
+    iv.runTicks ((now, .cancel) :: calls) = iv.runTicks calls ∨ iv.tickBegin now = none := by
+  cases hf : iv.firstTicked with
+  | false => left; simp [Interval.runTicks, tickBegin_first iv now hf]
+  | true =>
+    have hb := tickBegin_periodic iv now hf
+    cases hd : iv.tickDeadline now with
+    | panic => right; rw [hb, hd]
+    | deadline d => left; rw [hd] at hb; simp [Interval.runTicks, hb]
+
 /-- the panic of `tick` is exactly the overflow of `now + period` -/
 theorem interval_tick_panics_iff (iv : Interval) (now : Nat) (hf : iv.firstTicked = true)
     (hp : 0 < iv.period) : iv.tickDeadline now = .panic ↔ instMax < now + iv.period := by
@@ -594,5 +681,16 @@ example :
 
 /-- interval with missed ticks: start 100, period 20, called at 171 → next tick 180 -/
 example : (Interval.mk true 100 20).tickDeadline 171 = .deadline 180 := by decide
+
+/-- first tick cancelled twice before `start`, then delivered; a periodic tick cancelled; all aligned -/
+example :
+    let iv : Interval := ⟨false, 100, 20⟩
+    let calls : List (Nat × TickEv) :=
+      [(10, .cancel), (50, .cancel), (60, .complete), (105, .cancel), (131, .complete), (140, .complete)]
+    iv.ValidCalls 0 calls ∧ (iv.runTicks calls).2 = [100, 140, 160] := by
+  refine ⟨?_, by decide⟩
+  simp [Interval.ValidCalls, Interval.tickBegin, Interval.tickEnd, Interval.tickDeadline,
+    Interval.applyStmts, stmtsBeforeAwait, stmtsAfterAwait, Compio.Gen.IntervalTick.firstBranch,
+    Compio.Gen.IntervalTick.periodicBranch, instMax]
 
 end Compio.Props.C09
